@@ -71,11 +71,14 @@ def run(ctx):
     mlines, mcases = [], []
     for i in range(ctx.n(150, 2500)):
         lib, page = metalgen.gen_case(rnd)
+        lib2 = metalgen.second_library()
         ls = "".join(metalgen.ser(x) for x in lib)
+        l2s = "".join(metalgen.ser(x) for x in lib2)
         ps = "".join(metalgen.ser(x) for x in page)
         g = talgen.ctxvals()
+        g["mac"] = g["mac2"] = g["own"] = "MACROS"      # placeholders: the model's context holds the names, the macros live in the table
         try:
-            rout, rctx = metalgen.real_expand(ls, ps, g)
+            rout, rctx = metalgen.real_expand(ls, ps, {k: v for k, v in g.items() if k not in ("mac", "mac2", "own")}, l2s)
         except KeyError:
             res.count("out-of-domain:repeat-over-mapping")
             continue
@@ -91,7 +94,7 @@ def run(ctx):
         if uses and fills:
             res.nontrivial.add(ps)
         try:
-            oout, _plain = metalgen.oracle_expand(lib, page, g)
+            oout, _plain = metalgen.oracle_expand(lib, page, g, lib2)
         except Exception as e:  # noqa
             oout = "ORACLE-EXC " + repr(e)
         if oout != rout:
@@ -101,7 +104,7 @@ def run(ctx):
             res.violation("C17:context-leftover", "the context is not restored after a macro expansion", {"library": ls, "page": ps},
                           observed={"locals": dict(rctx.locals), "stack": len(rctx.localStack)}, required="empty", replay={"metal": True, "library": ls, "page": ps})
         nl, npg = metalgen.nf(lib), metalgen.nf(page)
-        table = metalgen.macro_table("mac/", nl) + metalgen.macro_table("own/", npg)
+        table = metalgen.macro_table("mac/", nl) + metalgen.macro_table("mac2/", metalgen.nf(lib2)) + metalgen.macro_table("own/", npg)
         mlines.append("\t".join(["talmetal", "F", talgen.enc_val(g), metalgen.enc_macros(table), metalgen.enc_mnodes(npg)]))
         mcases.append((ls, ps, rout))
     mouts = ctx.driver.run(mlines)
